@@ -64,3 +64,61 @@ Example C04_guard_inhabited :
   let cps := [108;111;99;97;108;32;115;32;61;32;34;20013;25991;34;32;120;32;45;45;32;99;13;10;9;121;32;61;32;115] in
   forallb scalar cps = true /\ file_class_ok cps = true /\ lexed_covered cps = true.
 Proof. repeat split; vm_compute; reflexivity. Qed.
+
+(* ================================================================== names level (round 2, agent ast-loc)
+   Every name-bearing AST node (NameExp, `local` / parameter / numeric and generic `for` variable, `local function`
+   name; not the synthetic `self` of `function a:m()`) carries the Loc of its identifier token: Proofs/ParserLoc*.v. *)
+From LH Require Import Model.Ast Model.Parser Model.Number Model.LuaFront.
+From LH Require Import Proofs.LexerTotalWf Proofs.ParserTotalBase Proofs.ParserLocBase Proofs.ParserLocMain.
+
+Definition parsed_names_covered (cps : list N) : option (bool * nat) :=
+  match parse_bytes (fun _ => 0%Z) classify_tok (utf8_of cps) with
+  | Ok (PR b [] []) => Some (names_covered cps b, length (name_locs b))
+  | _ => None
+  end.
+
+(* full statement: every name-bearing node of every valid-UTF-8 file that parses without lexical and syntax error is
+   covered by its range (false outside file_class_ok: C04_name_escape_shift_refuted) *)
+Definition C04_name_range_full : Prop :=
+  forall gbk classify cps b, forallb scalar cps = true ->
+    parse_bytes gbk classify (utf8_of cps) = Ok (PR b [] []) -> names_covered cps b = true.
+
+(* parser invariant, for EVERY token list ending in an EOF token (wfr), every fuel and numeral classifier: in an AST
+   returned without syntax error every name-bearing node (name, Loc) is the text and the GetNowTokenLoc Loc of an
+   identifier token of the list (an element of tok_locs, the list C04_tok_range_exact speaks about) *)
+Theorem C04_name_is_token : forall classify ts, wfr ts -> forall fuel b le,
+  parse_tokens classify fuel ts = Ok (PR b le []) ->
+  Forall (fun x => exists t, In (t, snd x) (tok_locs zero_tok ts) /\ tk t = TkIdentifier /\ tstr t = fst x)
+         (name_locs b).
+Proof. exact parse_tokens_names. Qed.
+Print Assumptions C04_name_is_token.
+
+(* an error-free parse has read the whole token list: the lexical errors it reports are those of all tokens *)
+Theorem C04_parse_reads_all : forall classify ts fuel b le,
+  wf_tokens ts -> parse_tokens classify fuel ts = Ok (PR b le []) -> le = flat_map lerrs ts.
+Proof. intros classify ts fuel b le Hw. exact (parse_tokens_lexerrs classify ts (wf_tokens_wfr ts Hw) fuel b le Hw). Qed.
+Print Assumptions C04_parse_reads_all.
+
+(* proved: for every valid-UTF-8 file inside file_class_ok that parses without lexical and without syntax error, every
+   name-bearing AST node is reported with a range that lies inside the document, has start <= end and covers exactly
+   the identifier (LSP reading) - for any GBK oracle and numeral classifier *)
+Theorem C04_name_range_exact : forall gbk classify cps b,
+  forallb scalar cps = true -> file_class_ok cps = true ->
+  parse_bytes gbk classify (utf8_of cps) = Ok (PR b [] []) ->
+  names_covered cps b = true.
+Proof. exact name_range_exact. Qed.
+Print Assumptions C04_name_range_exact.
+
+(* local s = "a\nb" local y : the declaration of y is reported one column too far left *)
+Theorem C04_name_escape_shift_refuted :
+  let cps := [108;111;99;97;108;32;115;32;61;32;34;97;92;110;98;34;32;108;111;99;97;108;32;121] in
+  forallb scalar cps = true /\ cls_escape cps = true /\ parsed_names_covered cps = Some (false, 2%nat).
+Proof. repeat split; vm_compute; reflexivity. Qed.
+Print Assumptions C04_name_escape_shift_refuted.
+
+(* non-vacuity: CRLF / LF lines, a CJK string, a comment; local function, parameters, numeric and generic for,
+   attribute local, method definition with synthetic self: 15 name-bearing nodes, all covered *)
+Example C04_name_guard_inhabited :
+  let cps := [108;111;99;97;108;32;102;117;110;99;116;105;111;110;32;102;40;97;44;32;46;46;46;41;13;10;32;32;102;111;114;32;105;32;61;32;49;44;32;97;32;100;111;32;108;111;99;97;108;32;115;32;60;99;111;110;115;116;62;32;61;32;34;20013;25991;34;32;101;110;100;10;32;102;111;114;32;107;44;32;118;32;105;110;32;112;97;105;114;115;40;116;41;32;100;111;32;120;46;121;58;109;40;107;41;32;101;110;100;32;45;45;32;99;13;10;32;101;110;100;10;32;102;117;110;99;116;105;111;110;32;111;46;112;58;113;40;122;41;32;114;101;116;117;114;110;32;115;101;108;102;44;32;122;32;101;110;100] in
+  forallb scalar cps = true /\ file_class_ok cps = true /\ parsed_names_covered cps = Some (true, 15%nat).
+Proof. repeat split; vm_compute; reflexivity. Qed.
